@@ -140,6 +140,7 @@ def cons_unit(kf):
 
 UNITS = {'c09_visitor_cons': (['C09'], cons_unit)}
 SEARCH = {'c09_visitor_cons': ['c09_validate']}
-BOUNDED = {'C09': [dict(case='c09_validate', function='src/validation/rules/*.rs + visit_* driver (through Schema::execute in strict mode)',
+BOUNDED = {'C09': [dict(case='c09_subtype', function='src/registry/mod.rs::MetaTypeName::{create, is_subtype} (used by the variables-in-allowed-position rule)', bound='all (position, variable) pairs over type strings of <= 7 characters built from A, B, [ ], ! (about 1 000 pairs)', why='string slicing by strip_prefix / strip_suffix on &str: Verus has no byte-level str reasoning'),
+                   dict(case='c09_validate', function='src/validation/rules/*.rs + visit_* driver (through Schema::execute in strict mode)',
                         bound='a hand-labelled table of 10 valid and 24 invalid documents over a 6-field derive-built schema; invalid = rejected before any resolver runs',
                         why='22 rule visitors and the visitor driver (~5 kLoC over the registry, closures, HashMaps) are outside the reach of Verus/Kani within this effort; only the composite-visitor forwarding is under contract')]}
